@@ -180,6 +180,36 @@ impl<'de> Deserialize<'de> for OnlyText {
     }
 }
 
+/// Accepts only data *borrowed from the input* (and sequences of such): a definite-length string
+/// reaches the visitor as borrowed in every configuration.
+#[derive(Debug)]
+pub struct OnlyBorrowed(pub u64);
+struct OnlyBorrowedV;
+impl<'de> Visitor<'de> for OnlyBorrowedV {
+    type Value = OnlyBorrowed;
+    fn expecting(&self, f: &mut std::fmt::Formatter) -> std::fmt::Result {
+        f.write_str("a borrowed string or a sequence of borrowed strings")
+    }
+    fn visit_borrowed_str<E: de::Error>(self, v: &'de str) -> Result<OnlyBorrowed, E> {
+        Ok(OnlyBorrowed(mix(7, v.as_bytes())))
+    }
+    fn visit_borrowed_bytes<E: de::Error>(self, v: &'de [u8]) -> Result<OnlyBorrowed, E> {
+        Ok(OnlyBorrowed(mix(8, v)))
+    }
+    fn visit_seq<A: SeqAccess<'de>>(self, mut a: A) -> Result<OnlyBorrowed, A::Error> {
+        let mut h = Fnv::new();
+        while let Some(x) = a.next_element::<OnlyBorrowed>()? {
+            h.u64(x.0)
+        }
+        Ok(OnlyBorrowed(h.0))
+    }
+}
+impl<'de> Deserialize<'de> for OnlyBorrowed {
+    fn deserialize<D: de::Deserializer<'de>>(d: D) -> Result<Self, D::Error> {
+        d.deserialize_any(OnlyBorrowedV)
+    }
+}
+
 /// Serialises through `collect_str` (documented: refused without alloc).  The Display impl
 /// produces ASCII and non-ASCII text through both `write_str` and `write_char`.
 pub struct ViaCollectStr(pub u32);
@@ -369,7 +399,7 @@ pub fn register(v: &mut Vec<(&'static str, Op)>) {
         "serde.SS" => SS, "serde.SN" => SN, "serde.ST" => ST, "serde.SU" => SU, "serde.SE" => SE, "serde.SOuter" => SOuter,
         "serde.Option<SE>" => Option<SE>, "serde.(SN,SE)" => (SN, SE),
     );
-    styped_only!(v; "serde.any.only-ints" => OnlyInts, "serde.any.only-text" => OnlyText, "serde.any.(only-ints,u8)" => (OnlyInts, u8));
+    styped_only!(v; "serde.any.only-ints" => OnlyInts, "serde.any.only-text" => OnlyText, "serde.any.(only-ints,u8)" => (OnlyInts, u8), "serde.any.only-borrowed" => OnlyBorrowed, "serde.any.(only-borrowed,u8)" => (OnlyBorrowed, u8));
     styped_only!(v; "serde.any" => AnyDigest, "serde.ignored" => IgnoredAny, "serde.(ignored,u8)" => (IgnoredAny, u8));
     v.push(("serde.ser.collect_str", (|b: &[u8]| {
         let n = b.iter().take(4).fold(0u32, |a, x| (a << 8) | *x as u32);
